@@ -205,6 +205,10 @@ class FnTranslator:
             key = '%s.%s' % (n.value.id, n.attr)
             if key in env:
                 return env[key]
+            if n.value.id in ('np', 'numpy', 'math') and n.attr in ('nan', 'NaN', 'NAN'):
+                # [loop ties C15] np.nan as a value: the missing number of the optional-number reading (None), typed at its use
+                # like the constant None (`x = np.nan` makes x an optional number, is_nan_const already reads it so in `a if c else np.nan`)
+                return ('None', 'NONE')
             raise Refuse('%s: unknown attribute %s' % (self.rel, key))
         if isinstance(n, ast.Subscript) and isinstance(n.value, ast.Name) and env.get(n.value.id, ('', ''))[1].startswith('D:'):
             # [loop ties C15] d[k] on a dict display local with literal string keys: the value under the key equal to k;
@@ -240,6 +244,11 @@ class FnTranslator:
                 if a[1] == 'Z':
                     return ('(- %s)' % a[0], 'Z')
                 return ('(Qopp %s)' % self.toQ(a), 'Q')
+            if isinstance(n.op, ast.UAdd):
+                a = self.expr(n.operand, env)       # [loop ties C15] +x on a number is x
+                if a[1] in ('Z', 'Q'):
+                    return a
+                raise Refuse('unary + on type %s' % a[1])
             if isinstance(n.op, ast.Not):
                 return ('(negb %s)' % self.truthy(self.expr(n.operand, env)), 'B')
             if isinstance(n.op, ast.Invert):
@@ -975,6 +984,19 @@ class FnTranslator:
                     raise Refuse('%s: bare yield' % self.rel)
                 call = ast.Call(func=ast.Name(id='yield_append__', ctx=ast.Load()), args=[s.value.value], keywords=[])
                 out.append(ast.Assign(targets=[ast.Name(id='yield__', ctx=ast.Store())], value=call))
+                continue
+            if isinstance(s, ast.Assign) and len(s.targets) == 1 and isinstance(s.targets[0], ast.Tuple) \
+                    and isinstance(s.value, ast.IfExp) and isinstance(s.value.body, ast.Tuple) and isinstance(s.value.orelse, ast.Tuple) \
+                    and len(s.value.body.elts) == len(s.value.orelse.elts) == len(s.targets[0].elts) \
+                    and all(isinstance(t, ast.Name) for t in s.targets[0].elts):
+                # [loop ties C15] a, b = (x1, y1) if c else (x2, y2): componentwise -- a, b = (x1 if c else x2), (y1 if c else y2)
+                # (every translated expression is pure, so evaluating c once per component changes nothing)
+                tup = ast.Tuple(elts=[ast.IfExp(test=s.value.test, body=x, orelse=y)
+                                      for x, y in zip(s.value.body.elts, s.value.orelse.elts)], ctx=ast.Load())
+                s2 = ast.Assign(targets=s.targets, value=tup)
+                s2.lineno, s2.col_offset = 0, 0
+                ast.fix_missing_locations(s2)
+                out += self.desugar([s2])
                 continue
             if isinstance(s, ast.Assign) and len(s.targets) == 1 and isinstance(s.targets[0], ast.Tuple) \
                     and isinstance(s.value, ast.Tuple) and len(s.value.elts) == len(s.targets[0].elts) \
